@@ -16,6 +16,10 @@ CLAIMS = {
    text="Same TLC-enumerated chain-complete trees, drivers (library, WASM format_blots, CLI --format) and widths as C07; the formatter's output is formatted a second time with the same driver and width and must be returned unchanged as text (including blank-line spacing of the multi-statement programs); corpus programs likewise (Trace_C07, verdict bad8). Comment placement and 0-5 blank lines are exercised by the C09 comment state machine cases, whose second pass is also compared.",
    note="Trusted: TLC, WASM shim. Text equality is exact string equality. Widths sampled.",
    technique="TLA+ spec (SyntaxRich) enumerated by TLC; cases replayed twice through the real formatter drivers; recorded runs validated by TLC (Trace_C07, idempotent flag)"),
+ "C09": dict(category="model_checking", design_ref="5 C09",
+   text="Comments.tla is a TLA+ state machine of the parser's pending-comment bookkeeping (ReadComment / ReadItem / ReadSameLine / Finish) and of the formatter's emission, for lists, records, do-blocks and the top level; TLC explores every behaviour up to 3 items and 6-7 slots, checking TypeOK, NoDuplication, OrderKept, Conservation and LossOnlyWhenEmpty (the design loses comments exactly in item-less containers) with per-action coverage required. Every terminated behaviour becomes real programs (plain, assigned, nested in list / record / lambda / do-block, trailing comma, tricky comment texts, 0-5 blank lines) for the WASM driver, the library formatter and the CLI at several widths; the comment sequences of input and output are compared.",
+   note="Trusted: TLC, lexical comment extraction (// outside string literals), WASM shim. Only the comment kinds the property names; comments in call parentheses or after infix operators are silent layout for the grammar. Known finding: item-less list / record.",
+   technique="TLA+ state machine (Comments.tla) model-checked with TLC (-coverage); every behaviour replayed into the real formatter drivers; comment sequences compared"),
  "C10": dict(category="model_checking", design_ref="5 C10",
    text="The precedence table of the property is data in Syntax.tla with a reference precedence-climbing parser and two printers; TLC checks ParseRef(PrintFull(t)) = t and ParseRef(PrintMin(t)) = t on every enumerated tree (design check) and emits every flat token string (all operator pairs, triples, prefix/postfix decorations), every admitted layout decoration of every gap (and gap pair) of 18 templates, redundant-parenthesis / trailing-comma variants and every reserved word extended by a suffix/prefix; the real parser must produce exactly the reference tree (flat and fully parenthesised), the same program under every layout, and bound names must evaluate in 19 positions. Random deep token strings parsed by the real parser are validated by TLC against ParseRef.",
    note="Trusted: TLC, the token renderer and AST projection in the harness. The table is independent of precedence.rs (which feeds both the repo's parser and printer). Layout admissibility (Admit) is a measured subset of what grammar.pest admits.",
